@@ -1172,6 +1172,9 @@ impl Online {
                     "log-purged-but-no-snapshot-held"
                 } else if replaced_by_older {
                     "log-purged-beyond-held-snapshot:own-newer-snapshot-replaced-by-an-older-installed-one"
+                } else if inc > 0 && seen == 0 {
+                    // the state a restarted node comes back with, before it did anything
+                    "log-purged-beyond-held-snapshot:state-recovered-at-restart"
                 } else {
                     "log-purged-beyond-held-snapshot"
                 };
